@@ -262,7 +262,7 @@ var traceForks = os.Getenv("B6VC_TRACE") != ""
 // unsatisfiable condition, every obligation on it would hold vacuously.
 func (x *Exec) feasible(pc *Term) bool {
 	x.pruneQueries++
-	q := x.C.StripQuant(pc)
+	q := x.C.StripQuant(x.coneOfInfluence(pc))
 	x.C.SkipQuantAxioms = true
 	qf, uf, arr, ints := termFeatures([]*Term{q}, x.C)
 	script := "(set-option :produce-models false)\n" + x.C.Script(pickLogic(qf, uf, arr, ints), []*Term{q}, nil)
@@ -279,4 +279,83 @@ func (x *Exec) feasible(pc *Term) bool {
 		return false
 	}
 	return true
+}
+
+// coneOfInfluence keeps the conjuncts of a path condition that share a symbol, directly or
+// through other conjuncts, with its last conjunct (the branch condition just added). The
+// rest of the path condition is satisfiable on its own (every earlier fork was checked), so
+// dropping it can only make the query weaker: fewer paths are pruned, never a feasible one.
+func (x *Exec) coneOfInfluence(pc *Term) *Term {
+	var conj []*Term
+	var flat func(t *Term)
+	flat = func(t *Term) {
+		if t.Op == "and" {
+			for _, a := range t.Args {
+				flat(a)
+			}
+			return
+		}
+		conj = append(conj, t)
+	}
+	flat(pc)
+	if len(conj) < 8 {
+		return pc
+	}
+	if x.symCache == nil {
+		x.symCache = map[int]map[string]bool{}
+	}
+	var syms func(t *Term) map[string]bool
+	syms = func(t *Term) map[string]bool {
+		if m, ok := x.symCache[t.ID]; ok {
+			return m
+		}
+		m := map[string]bool{}
+		if (t.Op == "const" || t.Op == "app") && t.Name != "" {
+			m[t.Name] = true
+		}
+		for _, a := range t.Args {
+			for k := range syms(a) {
+				m[k] = true
+			}
+		}
+		x.symCache[t.ID] = m
+		return m
+	}
+	keep := make([]bool, len(conj))
+	front := map[string]bool{}
+	last := len(conj) - 1
+	keep[last] = true
+	for k := range syms(conj[last]) {
+		front[k] = true
+	}
+	for changed := true; changed; {
+		changed = false
+		for i, c := range conj {
+			if keep[i] {
+				continue
+			}
+			cs := syms(c)
+			hit := false
+			for k := range cs {
+				if front[k] {
+					hit = true
+					break
+				}
+			}
+			if hit {
+				keep[i] = true
+				changed = true
+				for k := range cs {
+					front[k] = true
+				}
+			}
+		}
+	}
+	var out []*Term
+	for i, c := range conj {
+		if keep[i] {
+			out = append(out, c)
+		}
+	}
+	return x.C.And(out...)
 }
